@@ -615,6 +615,7 @@ def main():
         else:
             tb.append('Print Assumptions %s: %s' % (name, '; '.join(axs)))
     tb.append('translator tools/gen_constants.py (constants of /repo -> coq/gen/Gen.v), fail-closed')
+    tb.append('translator tools/gen_loops.py (statements of body_mixin._iter_body -> coq/gen/GenLoops.v), fail-closed')
     tb.append('extraction: ExtrOcamlBasic only (no Extract Constant / Extract Inductive of our own), OCaml 4.13.1, '
               'ocaml/driver_tail.ml; cross-checked against vm_compute on %d cases this run' % vm_n)
     tb.append('correspondence + oracle harness tools/props/%s.py on CPython %s' % (pid, sys.version.split()[0]))
